@@ -383,7 +383,7 @@ func render(t *rt.Term, names map[int64]string, args *[]interface{}, b *strings.
 			fmt.Fprintf(b, "_F%d", t.I)
 		}
 	case rt.Atom:
-		if safeAtom(t.S) {
+		if safeAtom(t.S) || t.S == "[]" {
 			b.WriteString(t.S)
 		} else {
 			b.WriteString(" ? ")
@@ -584,7 +584,11 @@ func genRunes(t *rapid.T, max int) []rune {
 }
 
 func genElem(t *rapid.T) *rt.Term {
-	switch u(t, 6, "elem") {
+	switch u(t, 8, "elem") {
+	case 6: // elements that are lists themselves: [] as an element is not the end of the list
+		return rt.A("[]")
+	case 7:
+		return []*rt.Term{rt.List([]*rt.Term{rt.A("a")}, nil), rt.List([]*rt.Term{rt.A("[]")}, nil), rt.List([]*rt.Term{rt.A("a"), rt.A("[]")}, nil)}[u(t, 3, "nested")]
 	case 0:
 		return rt.I(int64(u(t, 3, "i")))
 	case 1:
